@@ -116,6 +116,12 @@ func runC07(r *Run) {
 		}
 		nSetters++
 		r.saw(fnName(fn))
+		// the retained state of a replaced key: its consensus-address lookup alone, kept next to the operator's
+		// previous-key record (this is what the live replacement leaves behind, and what the import restores)
+		if n == 1 && ws[fCons] && ws[fPrev] {
+			r.ok("C07.R2", "set-all-three|"+fnName(fn), w.pos(fn.Pos()), "writes the consensus-address lookup of a retained (previous) key together with the previous-key record")
+			continue
+		}
 		r.check(n == 3, "C07.R2", "set-all-three|"+fnName(fn), w.pos(fn.Pos()), "the three key indexes are written together", fmt.Sprintf("%s writes only %d of the three key indexes: they disagree afterwards", fnName(fn), n))
 	}
 	if nSetters == 0 {
